@@ -84,6 +84,7 @@ func c15Run(c *vf.Case, msgs []wsMsg, events []wsEvent, k int, mut c15Mutant, wi
 	reported := false
 	var reportedErr error
 	queued := 0
+	cancelHeld := false
 	afterArm := func() {}
 	if async && mut.framing && !preClosed && k == 0 && next == 0 && c.Rng.Chance(1, 6) {
 		// the read that will meet the violating frame is parked on the transport; then the transport stalls and the
@@ -93,6 +94,13 @@ func c15Run(c *vf.Case, msgs []wsMsg, events []wsEvent, k int, mut c15Mutant, wi
 			t.Pump()
 			t.HoldWrites = true
 			queued = c.Rng.Range(129, 400)
+			if c.Rng.Chance(1, 3) {
+				// the write the transport is holding will fail (cancelled while parked) instead of completing; what
+				// is queued behind it, the Close 1002 included, goes out with the next flush
+				cancelHeld = true
+				queued = c.Rng.Range(1, 6)
+				c.Count("violations_read_behind_a_write_that_is_then_cancelled", 1)
+			}
 			for i := 0; i < queued; i++ {
 				s.AsyncWrite([]byte("queued before the violation"), websocket.TypeText, func(error) {})
 			}
@@ -249,6 +257,9 @@ func c15Run(c *vf.Case, msgs []wsMsg, events []wsEvent, k int, mut c15Mutant, wi
 	if queued > 0 {
 		wcalls := 0
 		s.AsyncWrite([]byte("after"), websocket.TypeText, func(e error) { wcalls++; werr = e })
+		if cancelHeld {
+			t.CancelWrites()
+		}
 		t.ReleaseWrites()
 		for i := 0; i < 4*queued+100 && t.Pump() > 0; i++ {
 		}
@@ -484,7 +495,7 @@ func init() {
 	register(&vf.Check{
 		ID:        "C15",
 		Technique: "runtime monitor with single-violation mutants of wsref-generated conforming streams read through all four APIs on a scripted transport; the monitor knows position and class and checks error reporting, non-delivery, Close(1002) on the wire and refusal of writes",
-		Rule: "over-maximum payloads begin with the bytes of a conforming text frame and the application reads once more after the rejection (no data may come back); in one async framing case in six the read is parked, the transport stalls and 129-400 writes are queued before the violating frame arrives (the Close 1002 still follows them); " +
+		Rule: "over-maximum payloads begin with the bytes of a conforming text frame and the application reads once more after the rejection (no data may come back); in one async framing case in six the read is parked, the transport stalls and 129-400 writes are queued before the violating frame arrives (the Close 1002 still follows them), and in a third of those 1-6 writes are queued and the write the transport holds is cancelled (ErrCancelled) instead of completing: the Close 1002 still reaches the wire, once, with the next flush; " +
 			"cases = conforming stream (1-6 messages, 1-4 fragments, ping/pong in between) with exactly one mutation from {RSV bit; masked server frame; control frame FIN=0; control frame with 126-180 payload bytes; reserved opcode 3-7 / 11-15; continuation with no message in progress; data opcode inside a fragmented message; frame over max (7-, 16- and 64-bit length encodings; max in {64,100,200,1000,70000}); fragments summing over max} at a random position x segmentation (every cut offset for streams <= 250 bytes, else random cuts plus one inside the mutant's header) x 4 read APIs x inline/deferred; " +
 			"every case is non-trivial; distinct = (class, position kind, segmentation set size)",
 		Assumptions: []string{
